@@ -452,6 +452,62 @@ def templates_shard(args):
     return agg
 
 
+# ------------------------------------------------------------------------------------------------
+# callbacks handed to the standard library: a function value carries its defining environment, so default arguments
+# that mention captured locals / std / self / $ must still resolve when a builtin (not user code) makes the call
+
+CB_DEFAULTS = [("cap", "captured local"), ("std.length('ab') + cap", "std and captured"), ("self.q", "self"), ("$.q", "dollar"),
+               ("outer.q", "captured object")]
+CB_RETURNS = ["d", "d > 0", "std.toString(d)", "[d]", "if d > 0 then p0 else p0", "{k: d}"]
+CB_OTHERS = ["[1, 2]", "'ab'", "{a: 1, b: 2}", "1", "[[1], [2]]", "['a', 'b']"]
+
+
+def callback_sources(funcs):
+    out = []
+    for fname, arity in funcs:
+        if arity < 1 or arity > 4:
+            continue
+        for pos in range(arity):
+            for req in (0, 1, 2, 3):
+                for di, (dflt, _) in enumerate(CB_DEFAULTS):
+                    for ri, ret in enumerate(CB_RETURNS):
+                        if req == 0 and "p0" in ret:
+                            continue
+                        params = ", ".join(["p%d" % i for i in range(req)] + ["d=" + dflt])
+                        cb = "function(%s) %s" % (params, ret)
+                        for oi, other in enumerate(CB_OTHERS):
+                            args = [cb if i == pos else other for i in range(arity)]
+                            src = ("local cap = 7; local outer = {q: 5}; {q: 3, r: std.%s(%s)}.r" % (fname, ", ".join(args)))
+                            out.append((fname, pos, req, di, src))
+    return out
+
+
+def callbacks_shard(args):
+    cases, = args
+    agg = Agg()
+    ev = Ev(agg)
+    try:
+        for fname, pos, req, di, src in cases:
+            r = ev.run(src, walk=1, stack=500)
+            if r.cls == "inconclusive":
+                continue
+            if r.cls in ("panic", "crash"):
+                agg.violation({"kind": "callback_default_lost_scope", "fn": fname, "pos": pos,
+                               "msg": re.sub(r"[0-9]+", "N", (r.msg or ""))[:80]},
+                              {"program": src, "panic": r.msg, "default_kind": CB_DEFAULTS[di][1]}, {"script": r.lines})
+                continue
+            if r.cls == "error" and r.kind == "UnknownVariable":
+                agg.violation({"kind": "callback_unknown_variable", "fn": fname}, {"program": src, "got": r.brief()}, {"script": r.lines})
+                continue
+            agg.count("callback:" + r.cls)
+            if r.cls == "value":
+                agg.add("callback_called_ok", (fname, pos))
+            agg.nontrivial.add(common.h64(src))
+    finally:
+        ev.close()
+    return agg
+
+
 def run(tier, seed):
     t0 = time.time()
     quick = tier != "thorough"
@@ -461,6 +517,18 @@ def run(tier, seed):
         total.merge(a)
     for a in common.pmap(templates_shard, [(seed,)]):
         total.merge(a)
+    srv0 = Server()
+    try:
+        from checks.c01 import std_functions
+        funcs = sorted((f, k) for f, k in std_functions(srv0).items() if k >= 0)
+    finally:
+        srv0.close()
+    cases = callback_sources(funcs)
+    if quick:
+        rng = random.Random(seed * 31 + 5)
+        cases = rng.sample(cases, min(len(cases), 120_000))
+    for a in common.pmap(callbacks_shard, [(cases[i::64],) for i in range(64)]):
+        total.merge(a)
     rule = ("generated programs are only loaded (never evaluated) and the accept/reject verdict, the AnalyzeError "
             "variant, the reported name and (for unbound variables, self, $) the exact span are compared with a scope "
             "checker written from the specification's static rules: (a) typed closed programs, also with every "
@@ -468,7 +536,9 @@ def run(tier, seed):
             "captures; a local named std); (b) one of 13 fault kinds injected at a random node (incl. dead branches, "
             "unused locals, default arguments, comprehension specs, field-name expressions, object locals); (c) "
             "arbitrary syntactic trees; (d) every accepted renamed program is then evaluated: no 'variable not "
-            "found'/self/$ panic; + 65 hand-written accept/reject templates. distinct_nontrivial = distinct "
+            "found'/self/$ panic; (e) every std function x argument position given a callback whose defaulted "
+            "parameter mentions a captured local / std / self / $ (0-3 required parameters, 6 result shapes, 6 "
+            "companion arguments): no panic, no unknown-variable error; + 65 hand-written accept/reject templates. distinct_nontrivial = distinct "
             "programs whose verdict was compared.")
     return common.finish(PROP, tier, seed, total, rule, t0,
                          assumptions=["scope oracle = my reading of the specification's static checks"])
